@@ -265,7 +265,12 @@ pub fn gen_history(rng: &mut Rng, g: &Graph, sc: &mut Scenario, st: &mut HistSta
         };
         if !last && since_build < 3 && pick(300) {
             let i = rng.below(g.sources.len() as u64) as usize;
-            st.src_ver[i] += 1;
+            // mostly a new version, sometimes back to the previous content
+            if st.src_ver[i] > 0 && rng.chance(1, 4) {
+                st.src_ver[i] -= 1;
+            } else {
+                st.src_ver[i] += 1;
+            }
             sc.history.push(Step::Write {
                 path: g.sources[i].clone(),
                 bytes: source_content(&g.sources[i], st.src_ver[i]),
